@@ -195,6 +195,40 @@ func decode(ms schema.ModelSet, enc encoding.EncType, in []byte, order []int) (r
 	return
 }
 
+func entryPoints(enc encoding.EncType) []string {
+	common := []string{"NewUnmarshaller", "NewUnmarshaller+DontValidate", "NewUnmarshaller+ValidateConfig+ValidateAll"}
+	switch enc {
+	case encoding.RFC7951:
+		return append(common, "UnmarshalRFC7951", "UnmarshalRFC7951WithoutValidation")
+	case encoding.JSON:
+		return append(common, "UnmarshalJSON", "UnmarshalJSONWithoutValidation")
+	}
+	return append(common, "UnmarshalXML")
+}
+
+func decodeVia(ms schema.ModelSet, enc encoding.EncType, in []byte, via string) (tree datanode.DataNode, err error, pn any) {
+	defer func() { pn = recover() }()
+	switch via {
+	case "NewUnmarshaller":
+		tree, err = encoding.NewUnmarshaller(enc).Unmarshal(ms, in)
+	case "NewUnmarshaller+DontValidate":
+		tree, err = encoding.NewUnmarshaller(enc).SetValidation(schema.DontValidate).Unmarshal(ms, in)
+	case "NewUnmarshaller+ValidateConfig+ValidateAll":
+		tree, err = encoding.NewUnmarshaller(enc).SetValidation(schema.ValidateConfig).SetValidation(schema.ValidateAll).Unmarshal(ms, in)
+	case "UnmarshalRFC7951":
+		tree, err = encoding.UnmarshalRFC7951(ms, in)
+	case "UnmarshalRFC7951WithoutValidation":
+		tree, err = encoding.UnmarshalRFC7951WithoutValidation(ms, in)
+	case "UnmarshalJSON":
+		tree, err = encoding.UnmarshalJSON(ms, in)
+	case "UnmarshalJSONWithoutValidation":
+		tree, err = encoding.UnmarshalJSONWithoutValidation(ms, encoding.Config, in)
+	case "UnmarshalXML":
+		tree, err = encoding.UnmarshalXML(ms, in)
+	}
+	return
+}
+
 type rec struct {
 	Tree  *D     `json:"tree,omitempty"`
 	Enc   string `json:"enc"`
@@ -257,6 +291,21 @@ func checkRoundTrip(ms schema.ModelSet, t *D, enc encoding.EncType) (vs []engine
 		if want != got {
 			mk("round-trip-differs:"+cls, fmt.Sprintf("encoded %s\nexpected %q\ngot      %q", b, want, got))
 			return vs, b
+		}
+		// every other way into the decoders (package functions with and without validation, an
+		// Unmarshaller with its default settings and with validation off) gives the same tree for
+		// this valid input
+		for _, via := range entryPoints(enc) {
+			tree, err, pn := decodeVia(ms, enc, b, via)
+			if pn != nil || err != nil || tree == nil || canon(tree) != want {
+				mk("entry-point-decodes-differently:"+via+":"+slotClass(t), fmt.Sprintf("encoded %s\nthrough %s: err=%v panic=%v\nexpected %q\ngot      %q", b, via, err, pn, want, func() string {
+					if tree != nil {
+						return canon(tree)
+					}
+					return ""
+				}()))
+				return vs, b
+			}
 		}
 		// every map order of the reader gives the same tree
 		for i, n := range r.choices {
